@@ -115,6 +115,74 @@ def register(GROUPS, c2g, incs, REPO, HERE, STRUCTS, Group):
         wa = one(sl.find_nodes(top["inner"][1], lambda n: n.get("kind") == "CallExpr" and sl.callee_name(n) in ("sc_MPI_Waitall", "MPI_Waitall")), "recursive: waitall")
         t, i = sl.emit_expr(wa["inner"][1], "ag_wait_count", R, want_params=[], **KW)
         g.add(t, i)
+        # ---- the three request slots: on each of the four paths through the exchange step (lower half / its odd rank, upper half / its
+        # unpaired rank) every slot request[0 .. 2] is written exactly once - by an Irecv / Isend (`request + K`) or by
+        # `request[K] = sc_MPI_REQUEST_NULL` - before Waitall (3, request, ..).  The slot numbers are literals; they are collected
+        # HERE in source order (not by the translator: literal-indexed stores are outside its conventions) and emitted as the
+        # definition ag_req_slots : list (list Z); AllgatherGen.v proves every path a permutation of 0 .. ag_wait_count - 1.
+        def lit(n):
+            n = sl.strip(n)
+            return int(n["value"]) if n.get("kind") == "IntegerLiteral" else None
+
+        def slot_writes(stmts_):
+            out = []
+
+            def f(n):
+                if n.get("kind") == "CallExpr" and sl.callee_name(n) in ("sc_MPI_Irecv", "sc_MPI_Isend", "MPI_Irecv", "MPI_Isend"):
+                    a = sl.strip(n["inner"][7])
+                    if a.get("kind") == "BinaryOperator" and a.get("opcode") == "+" and \
+                            sl.strip(a["inner"][0]).get("referencedDecl", {}).get("name") == "request" and lit(a["inner"][1]) is not None:
+                        out.append(lit(a["inner"][1]))
+                    elif a.get("kind") == "DeclRefExpr" and a["referencedDecl"]["name"] == "request":
+                        out.append(0)
+                    else:
+                        raise c2g.Unsupported("sc_allgather_recursive: request argument of a point-to-point call is not request + literal")
+                if n.get("kind") == "BinaryOperator" and n.get("opcode") == "=":
+                    l_ = c2g.skip_parens(n["inner"][0])
+                    if l_.get("kind") == "ArraySubscriptExpr" and sl.strip(l_["inner"][0]).get("referencedDecl", {}).get("name") == "request":
+                        if lit(l_["inner"][1]) is None:
+                            raise c2g.Unsupported("sc_allgather_recursive: request[] store with a non-literal index")
+                        out.append(lit(l_["inner"][1]))
+            for st_ in stmts_:
+                sl.walk(st_, f)
+            return out
+
+        def inner_stmts(n):
+            return n.get("inner", []) if n.get("kind") == "CompoundStmt" else [n]
+        if len(lo_odd["inner"]) != 3 or len(up_odd["inner"]) != 3:
+            raise c2g.Unsupported("sc_allgather_recursive: an odd test without else branch")
+        lower_common = [x for x in inner_stmts(low["inner"][1]) if x is not lo_odd]
+        upper_common = [x for x in inner_stmts(low["inner"][2]) if x is not up_odd]
+        if len(lower_common) + 1 != len(inner_stmts(low["inner"][1])) or len(upper_common) + 1 != len(inner_stmts(low["inner"][2])):
+            raise c2g.Unsupported("sc_allgather_recursive: the odd tests are not statements of the half branches")
+        paths = [slot_writes(lower_common + inner_stmts(lo_odd["inner"][1])), slot_writes(lower_common + inner_stmts(lo_odd["inner"][2])),
+                 slot_writes(upper_common + inner_stmts(up_odd["inner"][1])), slot_writes(upper_common + inner_stmts(up_odd["inner"][2]))]
+        g.add("Definition ag_req_slots : list (list Z) :=\n[%s].\n" % "; ".join("[%s]" % "; ".join(str(x) for x in p_) for p_ in paths),
+              dict(name="ag_req_slots", params=[], fuel=False))
+        # shape of the function: declarations, then ONE if (threshold) whose then-branch is `if (lower half) .. else ..; Waitall` and whose
+        # else-branch is the all-to-all call; Waitall waits for request[]
+        def shape(stmts_):
+            out = []
+            for st_ in stmts_:
+                if st_.get("kind") == "DeclStmt":
+                    continue
+                cs_ = [sl.callee_name(n) for n in sl.find_nodes(st_, lambda n: n.get("kind") == "CallExpr")]
+                cs_ = [c_ for c_ in cs_ if c_ not in sl.ABORTS]
+                if st_.get("kind") in ("IfStmt", "ForStmt"):
+                    out.append(st_["kind"])
+                elif cs_:
+                    out.append(",".join(cs_))
+                elif sl.find_nodes(st_, lambda n: n.get("kind") in ("BinaryOperator", "CompoundAssignOperator", "UnaryOperator") and
+                                   (n.get("opcode", "").endswith("=") and n.get("opcode") not in ("==", "!=", "<=", ">=") or n.get("opcode") in ("++", "--"))):
+                    out.append("assign")
+            return out
+        if shape(body.get("inner", [])) != ["IfStmt"] or body["inner"][-1] is not top:
+            raise c2g.Unsupported("sc_allgather_recursive: body is %s" % shape(body.get("inner", [])))
+        if shape(inner_stmts(top["inner"][1])) != ["IfStmt", "sc_MPI_Waitall"] or shape(inner_stmts(top["inner"][2])) != ["sc_allgather_alltoall"]:
+            raise c2g.Unsupported("sc_allgather_recursive: branches of the threshold test are %s / %s" %
+                                  (shape(inner_stmts(top["inner"][1])), shape(inner_stmts(top["inner"][2]))))
+        if sl.strip(wa["inner"][2]).get("referencedDecl", {}).get("name") != "request":
+            raise c2g.Unsupported("sc_allgather_recursive: Waitall does not wait for request[]")
         a2 = one(sl.find_nodes(top["inner"][2], lambda n: n.get("kind") == "CallExpr" and sl.callee_name(n) == "sc_allgather_alltoall"), "recursive: alltoall call")
         t, i = sl.emit_block([a2], "ag_a2a_args", ["*ghosts"], R, params=("datasize", "groupsize", "myoffset", "myrank"),
                              want_params=["datasize", "groupsize", "myoffset", "myrank"], effects=("sc_allgather_alltoall",),
@@ -144,6 +212,79 @@ def register(GROUPS, c2g, incs, REPO, HERE, STRUCTS, Group):
         t, i = sl.emit_expr(wa["inner"][1], "a2a_wait_count", A, params=("groupsize",), want_params=["groupsize"], **KW)
         g.add(t, i)
 
+        # ---- the LOOP of sc_allgather_alltoall as a whole: header (init, step; the condition is a2a_loop_cond above) and ONE ITERATION
+        # translated as a block: which calls are made (ghost <callee>_called), ALL their arguments in source order including the request
+        # slot (`request + j`, `request + groupsize + j`: element arithmetic on sc_MPI_Request *), and `stop` = 0 (the body never breaks).
+        # The translator does not accept an assignment used as an expression, and the skip branch is the chained store
+        # `request[j] = request[groupsize + j] = sc_MPI_REQUEST_NULL; continue;`.  That statement is therefore taken apart HERE: its two
+        # index expressions and its value become slices of their own (a2a_null_recv_slot, a2a_null_send_slot, a2a_null_value), the shape
+        # of the branch is checked (exactly this statement and `continue`), and a2a_iter is generated from the body without it.
+        import copy
+        init = lp["inner"][0]
+        if not (isinstance(init, dict) and init.get("kind") == "BinaryOperator" and init.get("opcode") == "=" and
+                sl.strip(init["inner"][0]).get("referencedDecl", {}).get("name") == "j"):
+            raise c2g.Unsupported("sc_allgather_alltoall: loop initialisation is not `j = ...`")
+        t, i = sl.emit_expr(init["inner"][1], "a2a_loop_init", A, want_params=[], **KW)
+        g.add(t, i)
+        t, i = sl.emit_block([lp["inner"][3]], "a2a_loop_step", ["j"], A, params=("j",), want_params=["j"], **KW)
+        g.add(t, i)
+        body = lp["inner"][4]
+        if body.get("kind") != "CompoundStmt" or not body.get("inner") or body["inner"][0] is not sk:
+            raise c2g.Unsupported("sc_allgather_alltoall: the skip test is not the first statement of the loop body")
+        then = sk["inner"][1]
+        tst = then.get("inner", []) if then.get("kind") == "CompoundStmt" else [then]
+        if len(sk["inner"]) != 2 or len(tst) != 2 or tst[1].get("kind") != "ContinueStmt":
+            raise c2g.Unsupported("sc_allgather_alltoall: the skip branch is not `<stores>; continue;` without else")
+
+        def req_store(n):
+            """n = `request[idx] = rhs` -> (idx node, rhs node)"""
+            n = c2g.skip_parens(n)
+            if n.get("kind") != "BinaryOperator" or n.get("opcode") != "=":
+                raise c2g.Unsupported("sc_allgather_alltoall: skip branch: not a store")
+            lhs = c2g.skip_parens(n["inner"][0])
+            if lhs.get("kind") != "ArraySubscriptExpr" or sl.strip(lhs["inner"][0]).get("referencedDecl", {}).get("name") != "request":
+                raise c2g.Unsupported("sc_allgather_alltoall: skip branch: store into something else than request[]")
+            return lhs["inner"][1], n["inner"][1]
+        idx1, rhs1 = req_store(tst[0])
+        idx2, val = req_store(sl.strip(rhs1))
+        if sl.find_nodes(val, lambda n: n.get("kind") in ("CallExpr", "UnaryOperator") and (n.get("kind") == "CallExpr" or n.get("opcode") in ("++", "--"))
+                         or (n.get("kind") == "BinaryOperator" and n.get("opcode", "").endswith("=") and n.get("opcode") not in ("==", "!=", "<=", ">="))):
+            raise c2g.Unsupported("sc_allgather_alltoall: the stored value has side effects")
+        for nd, gname in ((idx1, "a2a_null_recv_slot"), (idx2, "a2a_null_send_slot")):
+            t, i = sl.emit_expr(nd, gname, A, params=("j", "groupsize"), want_params=["j", "groupsize"], **KW)
+            g.add(t, i)
+        t, i = sl.emit_expr(val, "a2a_null_value", A, want_params=[], **KW)
+        g.add(t, i)
+        stm = copy.deepcopy(body["inner"])
+        th2 = stm[0]["inner"][1]
+        th2["inner"] = [x for x in th2["inner"] if x.get("kind") == "ContinueStmt"]
+        IP = ("j", "myoffset", "myrank", "datasize", "groupsize", "data", "request", "mpicomm", "SC3_MPI_BYTE", "SC_TAG_AG_ALLTOALL",
+              "sc_MPI_Irecv_ret", "sc_MPI_Isend_ret")
+        callee = [sl.callee_name(c) for c in calls]
+        t, i = sl.emit_block(stm, "a2a_iter", ["*ghosts", "stop"], A, params=IP, want_params=list(IP), effects=tuple(callee), effect_called=True,
+                             jumps_end=True, **KW)
+        want_out = [callee[0] + "_called"] + ["%s_arg%d" % (callee[0], k_) for k_ in range(7)] + \
+                   [callee[1] + "_called"] + ["%s_arg%d" % (callee[1], k_) for k_ in range(7)] + ["stop"]
+        if i["outputs"] != want_out:
+            raise c2g.Unsupported("sc_allgather_alltoall: effects of one iteration are %s" % i["outputs"])
+        g.add(t, i)
+        # the requests waited for are the array that was filled: Waitall (.., request, ..); its allocation: 2 * groupsize requests
+        if sl.strip(wa["inner"][2]).get("referencedDecl", {}).get("name") != "request":
+            raise c2g.Unsupported("sc_allgather_alltoall: Waitall does not wait for request[]")
+        # the allocation of request[] and the shape of the function: allocate, the loop, Waitall, free - nothing else
+        al = one(sl.find_nodes(F, lambda n: n.get("kind") == "CallExpr" and sl.callee_name(n) == "sc_malloc"), "alltoall: allocation")
+        t, i = sl.emit_expr(al["inner"][2], "a2a_alloc_bytes", A, params=("groupsize",), want_params=["groupsize"], **KW)
+        g.add(t, i)
+        abody = [c for c in F["inner"] if c.get("kind") == "CompoundStmt"][0]
+        if shape(abody.get("inner", [])) != ["sc_malloc", "ForStmt", "sc_MPI_Waitall", "sc_free"]:
+            raise c2g.Unsupported("sc_allgather_alltoall: body is %s" % shape(abody.get("inner", [])))
+        asg = [st_ for st_ in abody["inner"] if st_.get("kind") == "BinaryOperator" and sl.find_nodes(st_, lambda n: n is al)]
+        if len(asg) != 1 or sl.strip(asg[0]["inner"][0]).get("referencedDecl", {}).get("name") != "request":
+            raise c2g.Unsupported("sc_allgather_alltoall: the allocation is not assigned to request")
+        # nothing communicates outside the loop, and the loop is the only one
+        if len(p2p(lp)) != 2:
+            raise c2g.Unsupported("sc_allgather_alltoall: a point-to-point call outside the loop")
+
         # ================= sc_allgather
         T = "sc_allgather"
         F = fn(T)
@@ -168,6 +309,20 @@ def register(GROUPS, c2g, incs, REPO, HERE, STRUCTS, Group):
         rc = one(sl.find_nodes(F, lambda n: n.get("kind") == "CallExpr" and sl.callee_name(n) == R), "allgather: recursive call")
         t, i = sl.emit_block([rc], "top_args", ["*ghosts"], T, params=("datasize", "mpisize", "mpirank"), want_params=["datasize", "mpisize", "mpirank"],
                              effects=(R,), effect_skip_args={R: (0, 1)}, **KW)
+        g.add(t, i)
+        # ---- the WHOLE BODY of sc_allgather as one block: every call it makes in source order (Comm_size, Comm_rank, the own-block memcpy,
+        # the recursive routine) with all arguments, and the returned value; `&mpisize` / `&mpirank` passed to the two queries make these
+        # variables unknowns (parameters): they are whatever MPI stored there
+        body = [c for c in F["inner"] if c.get("kind") == "CompoundStmt"][0]
+        EFF = ("sc_MPI_Comm_size", "sc_MPI_Comm_rank", "memcpy", R)
+        TP = ("sendbuf", "sendcount", "sendtype", "recvbuf", "recvcount", "recvtype", "mpicomm", "sc_mpi_sizeof_ret", "sc_MPI_Comm_size_ret",
+              "sc_MPI_Comm_rank_ret", "mpisize", "mpirank", "SC3_MPI_SUCCESS")
+        t, i = sl.emit_block(body["inner"], "top_body", ["*ghosts", "ret"], T, params=TP, want_params=list(TP), effects=EFF, effect_called=True,
+                             ret="ret", **KW)
+        want_out = ["sc_MPI_Comm_size_called", "sc_MPI_Comm_size_arg0", "sc_MPI_Comm_rank_called", "sc_MPI_Comm_rank_arg0",
+                    "memcpy_called", "memcpy_arg0", "memcpy_arg1", "memcpy_arg2"] + [R + "_called"] + ["%s_arg%d" % (R, k_) for k_ in range(6)] + ["ret"]
+        if i["outputs"] != want_out:
+            raise c2g.Unsupported("sc_allgather: effects of the body are %s" % i["outputs"])
         g.add(t, i)
         return g, [f]
 
